@@ -9,7 +9,8 @@ static std::string tagged_body(unsigned w, size_t n, bool textual) { std::string
 // =====================================================================================
 // C05
 struct Recipe {
-    int kind = 0;                 // 0 fixed, 1 stream
+    int kind = 0;                 // 0 fixed, 1 stream, 2 an existing file through serveFile, 3 serveFile on a file that does not exist: the handler catches the error and answers itself
+    bool bigFile = false;
     int code = 200;
     std::vector<std::pair<std::string, std::string>> headers;   // typed headers by name -> value text
     std::vector<std::pair<std::string, std::string>> cookies;
@@ -24,6 +25,21 @@ struct Recipe {
     std::atomic<int> threw{0};
 };
 static std::map<std::string, Recipe*> g_recipes;
+// an application-defined header, as the API invites (Header + NAME + Registry): its writer prints an id in hexadecimal and leaves the stream in
+// that mode - legitimate as long as every part of the head is formatted on its own; nothing after it may come out in hexadecimal
+class XTraceId : public Http::Header::Header {
+public:
+    NAME("X-Trace-Id")
+    XTraceId() = default; explicit XTraceId(unsigned long id) : id_(id) {}
+    void parse(const std::string& data) override { id_ = strtoul(data.c_str(), nullptr, 16); }
+    void write(std::ostream& os) const override { os << std::hex << std::uppercase << id_; }
+    unsigned long id_ = 0;
+};
+static std::string c05_file(bool big) {   // files served by the file recipes (made once per process, in the scratch directory of the run)
+    static std::string small = [] { std::string p = "c05-file-s-" + std::to_string(getpid()) + ".bin"; FILE* f = fopen(p.c_str(), "wb"); if (f) { std::string d = tagged_body(7, 1234, false); fwrite(d.data(), 1, d.size(), f); fclose(f); } return p; }();
+    static std::string large = [] { std::string p = "c05-file-l-" + std::to_string(getpid()) + ".bin"; FILE* f = fopen(p.c_str(), "wb"); if (f) { std::string d = tagged_body(9, 300000, false); fwrite(d.data(), 1, d.size(), f); fclose(f); } return p; }();
+    return big ? large : small;
+}
 static const int CODES[] = {299, 450, 598, 204, 304, 200, 201, 202, 203, 206, 301, 302, 400, 401, 403, 404, 405, 409, 410, 418, 422, 429, 500, 501, 503, 511, 599};
 static void apply_headers(Http::ResponseWriter& response, const Recipe& rc) {
     using namespace Http::Header;
@@ -35,6 +51,7 @@ static void apply_headers(Http::ResponseWriter& response, const Recipe& rc) {
         else if (h.first == "Cache-Control") response.headers().add<CacheControl>(Http::CacheDirective(Http::CacheDirective::MaxAge, std::chrono::seconds(atol(h.second.c_str() + 8))));
         else if (h.first == "User-Agent") response.headers().add<UserAgent>(h.second);
         else if (h.first == "Access-Control-Allow-Headers") response.headers().add<AccessControlAllowHeaders>(h.second);
+        else if (h.first == "X-Trace-Id") response.headers().add<XTraceId>(strtoul(h.second.c_str(), nullptr, 16));
     }
     for (auto& c : rc.cookies) response.cookies().add(Http::Cookie(c.first, c.second));
     if (rc.kind == 1 && rc.te) response.headers().add<TransferEncoding>(rc.te == 1 ? Encoding::Gzip : rc.te == 2 ? Encoding::Deflate : Encoding::Compress);
@@ -48,7 +65,18 @@ struct RecipeHandler : public Http::Handler {
         rc->ran++;
         try {
             apply_headers(response, *rc);
-            if (rc->kind == 0) {
+            if (rc->kind == 2) {
+                auto p = Http::serveFile(response, c05_file(rc->bigFile));
+                p.then([rc](ssize_t v) { rc->promiseValue = (long)v; rc->fulfilled++; }, [rc](std::exception_ptr) { rc->rejected++; });
+            } else if (rc->kind == 3) {
+                try { Http::serveFile(response, "c05-no-such-file.bin"); rc->threw++; }
+                catch (const Http::HttpError&) {
+                    std::string body = tagged_body(rc->tag, rc->bodyLen, false);
+                    auto p = response.send((Http::Code)rc->code, body.data(), body.size());
+                    p.then([rc](ssize_t v) { rc->promiseValue = (long)v; rc->fulfilled++; }, [rc](std::exception_ptr) { rc->rejected++; });
+                    rc->reportedSize = (long)response.getResponseSize();
+                }
+            } else if (rc->kind == 0) {
                 std::string body = tagged_body(rc->tag, rc->bodyLen, false);
                 if (rc->viaClone) {
                     auto w2 = response.clone();
@@ -89,11 +117,12 @@ static std::string expected_stream_body(const Recipe& rc) {
 }
 static void gen_recipe(Rng& r, Recipe& rc, bool allowStream) {
     rc.kind = allowStream && r.chance(1, 3) ? 1 : 0;
+    if (allowStream && r.chance(1, 12)) { rc.kind = r.chance(1, 2) ? 2 : 3; rc.bigFile = r.chance(1, 3); }
     rc.code = r.pick(CODES);
-    static const char* HN[] = {"Server", "Location", "Content-Encoding", "Access-Control-Allow-Origin", "Cache-Control", "User-Agent", "Access-Control-Allow-Headers"};
+    static const char* HN[] = {"Server", "Location", "Content-Encoding", "Access-Control-Allow-Origin", "Cache-Control", "User-Agent", "Access-Control-Allow-Headers", "X-Trace-Id"};
     int nh = r.range(0, 6); std::set<std::string> used;
     for (int i = 0; i < nh; i++) { std::string n = r.pick(HN); if (!used.insert(n).second) continue;
-        std::string v = n == "Content-Encoding" ? "identity" : n == "Cache-Control" ? "max-age=" + std::to_string(r.range(0, 99999)) : n == "Location" ? "/" + mg::tok(r, 1, 20, mg::PATHCH) : mg::tok(r, 1, 24, mg::TOKCH);
+        std::string v = n == "X-Trace-Id" ? [&] { char b[24]; snprintf(b, sizeof b, "%lX", (unsigned long)(0xA0 + r.below(0xFFFFF))); return std::string(b); }() : n == "Content-Encoding" ? "identity" : n == "Cache-Control" ? "max-age=" + std::to_string(r.range(0, 99999)) : n == "Location" ? "/" + mg::tok(r, 1, 20, mg::PATHCH) : mg::tok(r, 1, 24, mg::TOKCH);
         rc.headers.push_back({n, v}); }
     int nc = r.range(0, 4); std::set<std::string> cn;
     // names may repeat (a jar keeps several cookies of one name as long as their values differ); (name, value) pairs are unique
@@ -101,6 +130,9 @@ static void gen_recipe(Rng& r, Recipe& rc, bool allowStream) {
     rc.tag = (unsigned)r.range(1, 200);
     rc.viaClone = r.chance(1, 3);
     // 204 / 304 carry no body by definition: only the empty fixed body is generated for them, where every reading of the framing agrees
+    if (rc.kind == 2) rc.code = 200;   // (serveFile answers 200)
+    if (rc.kind == 3) { rc.bodyLen = (rc.code == 204 || rc.code == 304) ? 0 : (size_t)r.range(0, 600); return; }
+    if (rc.kind == 2) { rc.cookies.clear(); return; }   // (serveFile writes the status line and the headers, not the response's cookies: observed, not judged - the statement speaks of the writer and the stream)
     if (rc.code == 204 || rc.code == 304) rc.kind = 0;
     if (rc.kind == 0 && (rc.code == 204 || rc.code == 304)) { rc.bodyLen = 0; }
     else if (rc.kind == 0) {
@@ -120,9 +152,9 @@ static void gen_recipe(Rng& r, Recipe& rc, bool allowStream) {
     }
 }
 static std::string recipe_text(const Recipe& rc) {
-    std::string s = std::string(rc.kind ? "stream" : rc.viaClone ? "fixed-via-clone" : "fixed") + " code=" + std::to_string(rc.code) + " headers=" + std::to_string(rc.headers.size()) + " cookies=" + std::to_string(rc.cookies.size());
+    std::string s = std::string(rc.kind == 2 ? (rc.bigFile ? "file-300000" : "file-1234") : rc.kind == 3 ? "missing-file-then-own-answer" : rc.kind ? "stream" : rc.viaClone ? "fixed-via-clone" : "fixed") + " code=" + std::to_string(rc.code) + " headers=" + std::to_string(rc.headers.size()) + " cookies=" + std::to_string(rc.cookies.size());
     if (rc.kind == 1 && rc.te) s += std::string(" own-transfer-coding=") + (rc.te == 1 ? "gzip" : rc.te == 2 ? "deflate" : "compress");
-    if (rc.kind == 0) s += " body=" + std::to_string(rc.bodyLen); else { s += " moveAt=" + std::to_string(rc.moveAt) + " chunks="; for (size_t i = 0; i < rc.chunks.size(); i++) s += std::to_string(rc.chunks[i]) + (rc.flushAfter[i] ? "f," : ","); }
+    if (rc.kind == 2) return s; if (rc.kind == 0 || rc.kind == 3) s += " body=" + std::to_string(rc.bodyLen); else { s += " moveAt=" + std::to_string(rc.moveAt) + " chunks="; for (size_t i = 0; i < rc.chunks.size(); i++) s += std::to_string(rc.chunks[i]) + (rc.flushAfter[i] ? "f," : ","); }
     return s;
 }
 // one exchange; returns the violation key ("" = fine); out: message + bytes on the wire
@@ -143,7 +175,7 @@ static std::string c05_exchange(int port, const std::string& id, Recipe& rc, lv:
         return "";
     }
     m = lv::read_response(c, buf, 0, (int)(6000 * lf + rc.bodyLen / 2e4));
-    std::string kd = rc.kind ? "stream" : "fixed";
+    std::string kd = rc.kind == 1 ? "stream" : rc.kind == 2 ? "file" : rc.kind == 3 ? "own-answer-after-failed-file" : "fixed";
     if (!m.complete) { detail = m.error + " after " + std::to_string(buf.size()) + " bytes: " + buf.substr(0, 120); return "c05:" + kd + ":" + (m.error.rfind("timeout", 0) == 0 || m.error.rfind("closed", 0) == 0 ? "incomplete-message" : "grammar"); }
     wireBytes = m.consumed;
     if (m.status != rc.code) { detail = "status " + std::to_string(m.status); return "c05:" + kd + ":status-code"; }
@@ -162,13 +194,21 @@ static std::string c05_exchange(int port, const std::string& id, Recipe& rc, lv:
     for (auto& h : m.headers) if (strcasecmp(h.first.c_str(), "Set-Cookie") == 0) gotC.insert(h.second);
     for (auto& ck : rc.cookies) wantC.insert(ck.first + "=" + ck.second);
     if (gotC != wantC) { detail = std::to_string(gotC.size()) + " Set-Cookie lines, want " + std::to_string(wantC.size()); return "c05:" + kd + ":cookies"; }
-    if (rc.kind == 0) {
+    if (rc.kind == 2) {
+        std::string want = tagged_body(rc.bigFile ? 9 : 7, rc.bigFile ? 300000 : 1234, false);
+        if (!m.hasLength) return "c05:file:no-content-length";
+        if (m.contentLength != want.size()) { detail = "Content-Length " + std::to_string(m.contentLength) + ", file " + std::to_string(want.size()); return "c05:file:content-length"; }
+        if (m.body != want) return "c05:file:body-bytes";
+        wait_for([&] { return rc.fulfilled.load() + rc.rejected.load() > 0; }, 3 * lf);
+        if (!rc.fulfilled.load()) return "c05:file:promise-not-fulfilled";
+    } else if (rc.kind == 0 || rc.kind == 3) {
+        if (rc.kind == 3 && rc.threw.load()) return "c05:own-answer-after-failed-file:missing-file-did-not-raise";
         if (!m.hasLength) return "c05:fixed:no-content-length";
         if (m.contentLength != rc.bodyLen) { detail = "Content-Length " + std::to_string(m.contentLength) + " body " + std::to_string(rc.bodyLen); return "c05:fixed:content-length"; }
         if (m.body != tagged_body(rc.tag, rc.bodyLen, false)) return "c05:fixed:body-bytes";
         wait_for([&] { return rc.fulfilled.load() + rc.rejected.load() > 0; }, 3 * lf);
-        if (!rc.fulfilled.load()) return "c05:fixed:promise-not-fulfilled";
-        if (rc.reportedSize.load() != (long)m.consumed) { detail = "getResponseSize() " + std::to_string(rc.reportedSize.load()) + ", bytes emitted " + std::to_string(m.consumed); return "c05:fixed:reported-size"; }
+        if (!rc.fulfilled.load()) return "c05:" + kd + ":promise-not-fulfilled";
+        if (rc.reportedSize.load() != (long)m.consumed) { detail = "getResponseSize() " + std::to_string(rc.reportedSize.load()) + ", bytes emitted " + std::to_string(m.consumed); return "c05:" + kd + ":reported-size"; }
     } else {
         if (!m.chunked) return "c05:stream:not-chunked";
         std::string exp = expected_stream_body(rc);
@@ -200,12 +240,13 @@ static void run_c05(long cases) {
         set_case(idx, wt);
         lv::HttpMsg m; size_t wire = 0; std::string detail;
         std::string key = c05_exchange(port, id, rc, m, wire, false, detail);
+        if (rc.ran.load() > 0) wait_for([&] { return rc.fulfilled.load() + rc.rejected.load() + rc.threw.load() > 0; }, 3.0);   // (the recipe lives on this frame: the handler's continuation must have run before it goes)
         g_evals++;
         if (!key.empty() && key.rfind("harness", 0) != 0) violation(key, recipe_text(rc) + ": " + key.substr(4) + " " + detail, Json().num("i", idx).str("phase", "c05").str("recipe", recipe_text(rc)).str("detail", detail).done());
-        std::string shape = std::string(rc.kind ? "S" : "F") + std::to_string(rc.headers.size()) + std::to_string(rc.cookies.size());
-        if (rc.kind == 0) { size_t b = rc.bodyLen, lg = 0; while (b >>= 1) lg++; shape += "b" + std::to_string(lg); } else { for (long c : rc.chunks) shape += c < 0 ? 'v' : c == 0 ? '0' : c < 16 ? 'a' : c < 256 ? 'b' : c < 4096 ? 'c' : c < 65536 ? 'd' : c >= 16777216 ? 'g' : c >= 1048576 ? 'f' : 'e'; }
+        std::string shape = std::string(rc.kind == 1 ? "S" : rc.kind == 2 ? "file" : rc.kind == 3 ? "nofile" : "F") + std::to_string(rc.headers.size()) + std::to_string(rc.cookies.size());
+        if (rc.kind != 1) { size_t b = rc.bodyLen, lg = 0; while (b >>= 1) lg++; shape += "b" + std::to_string(lg); } else { for (long c : rc.chunks) shape += c < 0 ? 'v' : c == 0 ? '0' : c < 16 ? 'a' : c < 256 ? 'b' : c < 4096 ? 'c' : c < 65536 ? 'd' : c >= 16777216 ? 'g' : c >= 1048576 ? 'f' : 'e'; }
         g_distinct.add(shape);
-        count(rc.kind ? "stream_responses" : "fixed_responses"); if (rc.kind && rc.te) count("stream_responses_with_a_transfer_coding_of_the_handler");
+        count(rc.kind == 1 ? "stream_responses" : rc.kind == 2 ? "file_responses" : rc.kind == 3 ? "own_answers_after_a_failed_file" : "fixed_responses"); if (rc.kind == 1 && rc.te) count("stream_responses_with_a_transfer_coding_of_the_handler");
         if (g_samples_left > 0 && (n % 37) == 3) { g_samples_left--; sample(wt); }
         // response size limit: differential on the configuration, for a sample of fixed recipes
         if (key.empty() && rc.kind == 0 && wire > 0 && (n % 6) == 0) {
